@@ -35,6 +35,9 @@ Definition handle (ts : list tok) : list tok :=
         | TInt v :: evs => map TInt (sent_counts (parse_sevs evs) v)
         | _ => [sym "ERR"; sym "args"]
         end
+      else if is_sym "sentidx" cmd then     (* sentidx <i>* -> <guard 0|1> <count>* : messages sent by draw index *)
+        let idx := map (fun t => match t with TInt z => Z.to_nat z | _ => O end) r in
+        TInt (if idx_guard idx then 1 else 0) :: map TInt (counts_of idx)
       else if is_sym "guard" cmd then [TInt (if C17_guard (parse_sevs r) then 1 else 0)]
       else [sym "ERR"; sym "badcmd"]
   | _ => [sym "ERR"; sym "badline"]
